@@ -85,7 +85,14 @@ f_getuid (void)
   object_t *ob;
   ob = sp->u.ob;
 
-  DEBUG_CHECK (ob->uid == NULL, "UID is a null pointer\n");
+  /* master::valid_object() is handed a new object before master::creator_file() has been
+   * asked for its uid: there is no uid to return yet. */
+  if (ob->uid == NULL)
+    {
+      free_object (ob, "f_getuid:0");
+      *sp = const0;
+      return;
+    }
   put_constant_string (ob->uid->name);
   free_object (ob, "f_getuid");
 }
